@@ -39,20 +39,20 @@ CONFIGS = [
         shapes="ShUpTo(%s, 4)" % B3),
     # symmetric encryption with a key-holding adversary (C08)
     cfg("encrypt_q", [["build"], ["build", "encrypt", "elideset"], ["forge", "tamper", "addassertion", "encrypt"], ["decrypt"]],
-        keys=("k1", "k2"), maxsize=9, maxt=1, inv=("WellFormedInv", "C08Laws"), props=("C02Prop", "C08Prop", "C07Prop"), shapes="ShUpTo(%s, 3) \\cup {e \\in Sh(%s, 5) : IsNode(e)}" % (B2, B1)),
+        keys=("k1", "k2"), maxsize=9, maxt=1, inv=("WellFormedInv", "C08Laws"), props=("C02Prop", "C08Prop", "C07Prop"), shapes="ShUpTo(%s, 3) \\cup {e \\in Sh(%s, 5) : IsNode(e)} \\cup NodeSubjectNodes({Leaf(V(\"a1\"))}, 9) \\cup Decorated({Leaf(V(\"a1\"))})" % (B2, B1)),
     cfg("encrypt_t", [["build"], ["build", "encrypt", "elideset"], ["forge", "tamper", "addassertion", "encrypt"], ["decrypt"]],
         keys=("k1", "k2"), maxsize=9, maxt=1, inv=("WellFormedInv", "C08Laws"), props=("C02Prop", "C08Prop", "C07Prop"), shapes="ShUpTo(%s, 4) \\cup {e \\in ShUpTo(%s, 5) : IsNode(e)}" % (B2, B2)),
     # compression with corrupt / mis-declared payloads (C13)
     cfg("compress_q", [["build"], ["build", "compress", "elideset"], ["compress", "forge", "tamper", "addassertion"], ["compress", "uncompress"]],
         maxsize=9, maxt=1, inv=("WellFormedInv", "C13Laws"), props=("C02Prop", "C13Prop", "C07Prop"),
-        shapes="ShUpTo(%s, 3) \\cup {e \\in Sh(%s, 5) : IsNode(e)}" % (B2, B1)),
+        shapes="ShUpTo(%s, 3) \\cup {e \\in Sh(%s, 5) : IsNode(e)} \\cup NodeSubjectNodes({Leaf(V(\"a1\"))}, 9) \\cup Decorated({Leaf(V(\"a1\"))})" % (B2, B1)),
     cfg("compress_t", [["build"], ["build", "compress", "elideset"], ["compress", "forge", "tamper", "addassertion"], ["compress", "uncompress"]],
         maxsize=9, maxt=1, inv=("WellFormedInv", "C13Laws"), props=("C02Prop", "C13Prop", "C07Prop"),
         shapes="ShUpTo(%s, 4) \\cup {e \\in ShUpTo(%s, 5) : IsNode(e)}" % (B2, B2)),
     # comparison of an envelope with its obscured variants, copies and unrelated ones (C14)
     cfg("compare_q", [["build"], ["build", "elide", "compress", "encrypt", "codec"], ["elide", "compress", "encrypt", "codec", "compare"], ["compare"]],
         maxsize=9, maxt=2, inv=("WellFormedInv", "DeclaredDigestHonest", "C14Laws"), props=("C02Prop", "C14Prop", "C07Prop"),
-        shapes="ShUpTo(%s, 3) \\cup {e \\in ShUpTo(%s, 5) : IsNode(e)}" % (B2, B2)),
+        shapes="ShUpTo(%s, 3) \\cup {e \\in ShUpTo(%s, 5) : IsNode(e)} \\cup NodeSubjectNodes({Leaf(V(\"a1\"))}, 9) \\cup Decorated({Leaf(V(\"a1\"))})" % (B2, B2)),
     # traversal and queries on every shape and its obscured variants (C15)
     cfg("query_q", [["build"], ["elideset", "compressone", "observe"], ["observe"]], nreg=1, maxsize=12, maxt=2,
         shapes="ShUpTo(%s, 5) \\cup NodeSubjectNodes(%s, 9) \\cup Decorated(%s)" % (B3, B2, B2)),
@@ -70,11 +70,11 @@ CONFIGS = [
     # recipients and seal (C10)
     cfg("recipient_q", [["build"], ["recipient_enc"], ["recipient_add", "addassertion", "recipient_dec"], ["recipient_dec"]],
         atoms=("a1",), nreg=1, maxsize=30, maxt=1, inv=("WellFormedInv",), props=("C10Prop",),
-        shapes="ShUpTo(%s, 3) \\cup {e \\in Sh(%s, 5) : IsNode(e)}" % (B1, B1)),
+        shapes="ShUpTo(%s, 3) \\cup {e \\in Sh(%s, 5) : IsNode(e)} \\cup NodeSubjectNodes({Leaf(V(\"a1\"))}, 9) \\cup Decorated({Leaf(V(\"a1\"))})" % (B1, B1)),
     # SSKR: every policy x every subset of the shares; shares of two splits mixed (C11)
     cfg("sskr_q", [["build"], ["encrypt"], ["sskr_splitjoin"]],
         atoms=("a1",), nreg=1, maxsize=30, maxt=1, inv=("WellFormedInv",), props=("C11Prop",), policies=policies(2, 3),
-        shapes="ShUpTo(%s, 2) \\cup {e \\in Sh(%s, 5) : IsNode(e)}" % (B1, B1)),
+        shapes="ShUpTo(%s, 2) \\cup {e \\in Sh(%s, 5) : IsNode(e)} \\cup NodeSubjectNodes({Leaf(V(\"a1\"))}, 9) \\cup Decorated({Leaf(V(\"a1\"))})" % (B1, B1)),
     cfg("sskr_mix_q", [["build"], ["encrypt"], ["sskr_pick"], ["sskr_pick", "encrypt"], ["sskr_join"]],
         atoms=("a1",), nreg=2, keys=("k1", "k2"), maxsize=30, maxt=1, inv=("WellFormedInv",), props=("C11Prop",),
         policies="{<<1, <<<<2, 2>>>>>>, <<1, <<<<1, 2>>>>>>, <<2, <<<<1, 1>>, <<1, 1>>>>>>}",
@@ -82,15 +82,15 @@ CONFIGS = [
     # inclusion proofs (C12)
     cfg("proof_q", [["build"], ["build", "proof"], ["proof", "elideset"], ["confirm"]],
         nreg=2, maxsize=12, maxt=2, inv=("WellFormedInv",), props=("C12Prop",),
-        shapes="ShUpTo(%s, 3) \\cup {e \\in Sh(%s, 5) : IsNode(e)} \\cup Nodes2(%s) \\cup WrapNodes(%s)" % (B2, B2, B1, B1)),
+        shapes="ShUpTo(%s, 3) \\cup {e \\in Sh(%s, 5) : IsNode(e)} \\cup Nodes2(%s) \\cup WrapNodes(%s) \\cup NodeSubjectNodes({Leaf(V(\"a1\"))}, 9) \\cup Decorated({Leaf(V(\"a1\"))})" % (B2, B2, B1, B1)),
     # types and attachments (C19)
     cfg("attach_q", [["build"], ["build", "types", "attach", "badattach"], ["types", "attach", "badattach"], ["obs_types", "obs_attach"]],
         atoms=("a1",), nreg=2, maxsize=30, maxt=1, inv=("WellFormedInv",), props=("C19Prop",),
-        shapes="ShUpTo(%s, 2) \\cup {e \\in Sh(%s, 5) : IsNode(e)}" % (B1, B1)),
+        shapes="ShUpTo(%s, 2) \\cup {e \\in Sh(%s, 5) : IsNode(e)} \\cup NodeSubjectNodes({Leaf(V(\"a1\"))}, 9) \\cup Decorated({Leaf(V(\"a1\"))})" % (B1, B1)),
     # salt: structure (C17, direction A)
     cfg("salt_q", [["build"], ["salt"], ["salt", "lookup"]],
         atoms=("a1",), nreg=2, maxsize=30, maxt=1, inv=("WellFormedInv",), props=("C17Prop",),
-        shapes="ShUpTo(%s, 3) \\cup {e \\in Sh(%s, 5) : IsNode(e)}" % (B2, B1)),
+        shapes="ShUpTo(%s, 3) \\cup {e \\in Sh(%s, 5) : IsNode(e)} \\cup NodeSubjectNodes({Leaf(V(\"a1\"))}, 9) \\cup Decorated({Leaf(V(\"a1\"))})" % (B2, B1)),
     # totality: every transform on decorated / partially obscured shapes (C16)
     cfg("total_q", [["build"], ["elideset", "compressone"], ["assertions", "compress", "encrypt", "navigate", "wrap", "lookup", "salt", "elideone"]],
         atoms=("a1",), nreg=1, maxsize=14, maxt=1, inv=("WellFormedInv",), props=("C02Prop", "C07Prop"),
@@ -102,7 +102,7 @@ CONFIGS = [
     # expressions, requests, responses, events (C18)
     cfg("expr_q", [["build"], ["expr_build"], ["malform", "obs_parse", "codec"], ["obs_parse"]],
         atoms=("a1",), nreg=1, maxsize=30, maxt=1, inv=("WellFormedInv",), props=("C18Prop",),
-        shapes="{Leaf(V(\"a1\")), KV(1), Wrap(Leaf(V(\"a1\")))} \\cup {e \\in Sh(%s, 5) : IsNode(e)} \\cup {Elided(H(<<\"cbor\", V(\"a1\")>>, {})), Assn(KV(1), Leaf(V(\"a1\")))}" % (B1,)),
+        shapes="{Leaf(V(\"a1\")), KV(1), Wrap(Leaf(V(\"a1\")))} \\cup {e \\in Sh(%s, 5) : IsNode(e)} \\cup {Elided(H(<<\"cbor\", V(\"a1\")>>, {})), Assn(KV(1), Leaf(V(\"a1\")))} \\cup NodeSubjectNodes({Leaf(V(\"a1\"))}, 9) \\cup Decorated({Leaf(V(\"a1\"))})" % (B1,)),
     # an assertion and its obscured twin
     cfg("twin_q", [["build"], ["navigate"], ["elideone", "compressone", "navigate"], ["assertions"]], maxsize=9, maxt=1,
         shapes="{e \\in ShUpTo(%s, 5) : IsNode(e)}" % B2),
